@@ -970,3 +970,56 @@ fn next_char_boundary(source: &str, start: usize) -> Option<usize> {
         None => Some(source.len()),
     }
 }
+
+/// Verification access (cargo feature `verif_hooks`, off by default).
+///
+/// Add-only re-exports of this module's private helpers for `crate::verif_hooks::snippet`.
+/// Nothing here changes behaviour; with the feature off this module is not compiled.
+#[cfg(feature = "verif_hooks")]
+pub(crate) mod verif_access {
+    pub(crate) fn crop_window_text(
+        window_text: &str,
+        window_start_row: usize,
+        error_row: usize,
+        error_col: usize,
+        crop_radius: usize,
+        local_start: usize,
+        local_end: usize,
+    ) -> (String, usize, usize) {
+        super::crop_window_text(
+            window_text,
+            window_start_row,
+            error_row,
+            error_col,
+            crop_radius,
+            local_start,
+            local_end,
+        )
+    }
+
+    pub(crate) fn crop_line_by_cols(line: &str, left: usize, right: usize) -> (String, usize, usize) {
+        let (s, c) = super::crop_line_by_cols(line, left, right);
+        (s, c.start_byte, c.prefix_bytes)
+    }
+
+    pub(crate) fn col_to_byte_offset_in_line(line: &str, col_1: usize) -> Option<usize> {
+        super::col_to_byte_offset_in_line(line, col_1)
+    }
+
+    pub(crate) fn line_starts(source: &str) -> Vec<usize> {
+        super::line_starts(source)
+    }
+
+    pub(crate) fn line_col_to_byte_offset_with_starts(
+        source: &str,
+        starts: &[usize],
+        row_1: usize,
+        col_1: usize,
+    ) -> Option<usize> {
+        super::line_col_to_byte_offset_with_starts(source, starts, row_1, col_1)
+    }
+
+    pub(crate) fn next_char_boundary(source: &str, start: usize) -> Option<usize> {
+        super::next_char_boundary(source, start)
+    }
+}
